@@ -1,7 +1,9 @@
 //! An overlay file system combining two filesystems, an upper layer with read/write access and a lower layer with only read access
 
 use crate::error::VfsErrorKind;
-use crate::{FileSystem, SeekAndRead, SeekAndWrite, VfsMetadata, VfsPath, VfsResult};
+use crate::{
+    FileSystem, SeekAndRead, SeekAndWrite, VfsFileType, VfsMetadata, VfsPath, VfsResult,
+};
 use std::collections::HashSet;
 
 use std::time::SystemTime;
@@ -113,6 +115,12 @@ impl FileSystem for OverlayFS {
     }
 
     fn create_dir(&self, path: &str) -> VfsResult<()> {
+        if self.exists(path)? {
+            return match self.metadata(path)?.file_type {
+                VfsFileType::File => Err(VfsErrorKind::FileExists.into()),
+                VfsFileType::Directory => Err(VfsErrorKind::DirectoryExists.into()),
+            };
+        }
         self.ensure_has_parent(path)?;
         self.write_path(path)?.create_dir()?;
         let whiteout_path = self.whiteout_path(path)?;
@@ -127,6 +135,9 @@ impl FileSystem for OverlayFS {
     }
 
     fn create_file(&self, path: &str) -> VfsResult<Box<dyn SeekAndWrite + Send>> {
+        if self.exists(path)? && self.metadata(path)?.file_type != VfsFileType::File {
+            return Err(VfsErrorKind::Other("Not a file".into()).into());
+        }
         self.ensure_has_parent(path)?;
         let result = self.write_path(path)?.create_file()?;
         let whiteout_path = self.whiteout_path(path)?;
